@@ -586,24 +586,45 @@ Definition process_line_fx2 : bool -> str -> line_result := process_line_g2 fals
 Definition read_raw_string_fx2 : bool -> str -> doc_result := read_raw_string_g2 false false.
 Definition read_file_fx2 : bool -> str -> doc_result := read_file_g2 false false.
 
-(** ... with it: every repair proposed for the reader *)
+(** * Comment lines and blank lines (notes/proposed_fixes/C06-comments-and-blank-lines.diff,
+    finding C06-F9; [Gen.Consts.nt_skips_comment_lines]).  [yield_triples], repaired, begins its
+    loop with
+      [stripped_line = a_line.strip()]
+      [if stripped_line == "" or stripped_line.startswith("#"): continue]
+    so the lines a line reader delivers are first thinned out; without the repair every line
+    is tokenised.  [sk] is the switch. *)
+Definition is_skipped_line (raw : str) : bool :=
+  let s := strip raw in str_eqb s [] || prefixb nt_comment_start s.
+
+Definition kept_lines (sk : bool) (lines : list str) : list str :=
+  if sk then filter (fun l => negb (is_skipped_line l)) lines else lines.
+
+(** the document loop of [yield_triples] over the lines of a line reader *)
+Definition doc_loop (sk : bool) (pl : str -> line_result) (lines : list str) : doc_result :=
+  run_lines_g pl (kept_lines sk lines) [] 0.
+
+Definition read_raw_string_g3 (sk hs el : bool) (allow : bool) (doc : str) : doc_result :=
+  doc_loop sk (process_line_g2 hs el allow) (raw_string_lines doc).
+
+Definition read_file_g3 (sk hs el : bool) (allow : bool) (doc : str) : doc_result :=
+  doc_loop sk (process_line_g2 hs el allow) (file_lines doc).
+
+(** every repair proposed for the reader *)
 Definition process_line_fx3 : bool -> str -> line_result := process_line_g2 true true.
-Definition read_raw_string_fx3 : bool -> str -> doc_result := read_raw_string_g2 true true.
-Definition read_file_fx3 : bool -> str -> doc_result := read_file_g2 true true.
+Definition read_raw_string_fx3 : bool -> str -> doc_result := read_raw_string_g3 true true true.
+Definition read_file_fx3 : bool -> str -> doc_result := read_file_g3 true true true.
 
 (** ** the reader /repo has now ([tools/gen_consts.py] accepts the switches of
-    comment-glued-to-dot only on top of the tokeniser repairs and the typing repair) *)
-Definition read_raw_string_cur (allow : bool) (doc : str) : doc_result :=
-  if nt_fixed_tok then (if nt_fixed_dlt then read_raw_string_g2 nt_tok_end_at_hash nt_uri_unclosed_to_eol allow doc
-                        else read_raw_string_fx allow doc)
-  else read_raw_string allow doc.
-
-Definition read_file_cur (allow : bool) (doc : str) : doc_result :=
-  if nt_fixed_tok then (if nt_fixed_dlt then read_file_g2 nt_tok_end_at_hash nt_uri_unclosed_to_eol allow doc
-                        else read_file_fx allow doc)
-  else read_file allow doc.
-
+    comment-glued-to-dot only on top of the tokeniser repairs and the typing repair;
+    the switch of comments-and-blank-lines is independent of everything else).
+    [process_line_cur] is what happens to ONE line that is not skipped. *)
 Definition process_line_cur (allow : bool) (line : str) : line_result :=
   if nt_fixed_tok then (if nt_fixed_dlt then process_line_g2 nt_tok_end_at_hash nt_uri_unclosed_to_eol allow line
                         else process_line_fx allow line)
   else process_line allow line.
+
+Definition read_raw_string_cur (allow : bool) (doc : str) : doc_result :=
+  doc_loop nt_skips_comment_lines (process_line_cur allow) (raw_string_lines doc).
+
+Definition read_file_cur (allow : bool) (doc : str) : doc_result :=
+  doc_loop nt_skips_comment_lines (process_line_cur allow) (file_lines doc).
